@@ -121,15 +121,18 @@ class WalkStream(Stream):
             if case["full"]:
                 import builtins
                 import io
+                from rv import procsnap as PS
                 saved = [(m, a, getattr(m, a)) for m, a in ((os, "getcwd"), (os, "chdir"), (os.path, "abspath"), (os.path, "exists"),
                                                             (os, "listdir"), (builtins, "open"), (io, "open"), (os.path, "isfile"),
                                                             (os.path, "isdir"))]
+                snap = PS.take()
                 try:
                     repo = SourceRepository(root, excluded_paths=excl, marker_files=case["markers"] or None, parallelism=case["parallelism"])
                 finally:
                     leaked = [a for m, a, v in saved if getattr(m, a) is not v]
                     for m, a, v in saved:
                         setattr(m, a, v)     # keep the harness process usable (the leak itself is finding D24)
+                    PS.restore(snap)         # ... all of it: subprocess.Popen, sys.stdout, import hooks, ...
                 found = sorted({os.path.relpath(c.filename, root) for c in repo.get_candidates(None)})
                 found = [[] if f == "." else f.split(os.sep) for f in found]
                 out = {"dirs": sorted(found), "mode": "full", "leaked": leaked}
